@@ -136,11 +136,11 @@ Print Assumptions C16_format_bayer_rejects.
 (* all four gain forms (scalar, polynomial, per-pixel, per-pixel polynomial; [gain_poly] = the
    coefficients of the pixel, highest power first, no constant term):
      DN = max(0, floor(poly(min(e, sat))))  at every pixel, never negative,
-     warning <-> warn_saturate and some pixel exceeds the capacity.
-   Capacity 0 is excluded: see C16_adc_zero_capacity_refuted. *)
+     warning <-> warn_saturate and some pixel exceeds the capacity;
+   for every capacity (0 and negative ones included) and for no capacity. *)
 Theorem C16_adc_spec :
   forall (img : arr QcS) (g : gainrep) (sat : option Qc) (warn : bool),
-  gain_fits g (nr img) (nc img) -> sat <> Some (Q2Qc 0) ->
+  gain_fits g (nr img) (nc img) ->
   exists w dn, adc img g sat warn = Ok (w, dn) /\ nr dn = nr img /\ nc dn = nc img /\
     (forall i j, 0 <= i < nr img -> 0 <= j < nc img ->
        get dn i j = Z.max 0 (qfloor (polyval (gain_poly g i j ++ [Q2Qc 0]) (clip_spec sat (get img i j)))) /\
@@ -152,7 +152,7 @@ Print Assumptions C16_adc_spec.
 (* non-decreasing in the electron count for gain curves with non-negative coefficients *)
 Theorem C16_adc_monotone :
   forall (img1 img2 : arr QcS) (g : gainrep) (sat : option Qc) (warn1 warn2 : bool),
-  gain_fits g (nr img1) (nc img1) -> sat <> Some (Q2Qc 0) -> nr img2 = nr img1 -> nc img2 = nc img1 ->
+  gain_fits g (nr img1) (nc img1) -> nr img2 = nr img1 -> nc img2 = nc img1 ->
   (forall i j, 0 <= i < nr img1 -> 0 <= j < nc img1 ->
      Forall (fun c => (Q2Qc 0 <= c)%Qc) (gain_poly g i j) /\
      (Q2Qc 0 <= get img1 i j)%Qc /\ (get img1 i j <= get img2 i j)%Qc) ->
@@ -192,13 +192,22 @@ Theorem C16_adc_rejects :
 Proof. exact adc_rejects. Qed.
 Print Assumptions C16_adc_rejects.
 
-(* the model, like the code (`if saturation_capacity:`), does not clip at capacity 0: a frame holding
-   5 electrons digitises to 5 where the property prescribes 0 (known finding C16-zero-capacity) *)
-Theorem C16_adc_zero_capacity_refuted :
-  exists img dn, adc img (G0 (Q2Qc 1)) (Some (Q2Qc 0)) false = Ok (false, dn) /\
-    get dn 0 0 = 5 /\ dn_spec (gain_poly (G0 (Q2Qc 1)) 0 0) (Some (Q2Qc 0)) (get img 0 0) = 0.
-Proof. exact adc_zero_capacity_refuted. Qed.
-Print Assumptions C16_adc_zero_capacity_refuted.
+(* capacity 0 (`if saturation_capacity is not None:`, after the repair of finding C16-zero-capacity): every
+   positive count is clipped to 0 and the warning fires exactly when some pixel holds a positive count;
+   e.g. a 5 e- pixel with unit gain digitises to 0 and warns *)
+Theorem C16_adc_zero_capacity :
+  forall (img : arr QcS) (g : gainrep) (warn : bool), gain_fits g (nr img) (nc img) ->
+  exists w dn, adc img g (Some (Q2Qc 0)) warn = Ok (w, dn) /\
+    (forall i j, 0 <= i < nr img -> 0 <= j < nc img ->
+       get dn i j = Z.max 0 (qfloor (polyval (gain_poly g i j ++ [Q2Qc 0]) (qmin (get img i j) (Q2Qc 0))))) /\
+    (w = true <-> warn = true /\ exists i j, 0 <= i < nr img /\ 0 <= j < nc img /\ (Q2Qc 0 < get img i j)%Qc).
+Proof. exact adc_zero_capacity. Qed.
+Print Assumptions C16_adc_zero_capacity.
+
+Theorem C16_adc_zero_capacity_example :
+  exists dn, adc (@mkArr QcS 1 1 (fun _ _ => Q2Qc 5)) (G0 (Q2Qc 1)) (Some (Q2Qc 0)) true = Ok (true, dn) /\ get dn 0 0 = 0.
+Proof. exact adc_zero_capacity_example. Qed.
+Print Assumptions C16_adc_zero_capacity_example.
 
 (* non-vacuity: a 2x2 'RGGB' pattern at oversample 3 on a 6x12 two-wavelength cube satisfies the
    hypotheses of C16_bayer_spec, and sub-pixel (4,7) (native pixel (1,2), pattern cell (1,0) = G)
